@@ -4,7 +4,19 @@
 
      tf_pwa/adaptive_bins.py  AdaptiveBound.single_split_bound / multi_split_bound /
                               loop_split_bound / base_bound / get_bool_mask / split_data
-     tf_pwa/histogram.py      Hist1D.histogram (np.histogram semantics + weighted errors)   *)
+     tf_pwa/histogram.py      Hist1D.histogram (np.histogram semantics + weighted errors),
+                              Hist1D.__add__ / __sub__ (_sum_error)
+
+   The rule that places an upper edge above a percentile / the maximum is an oracle [up]
+   (theorems: any up with x < up x, monotone).  The code AS IT IS is the instance
+   [up_old] = x + 1e-6 (an ABSOLUTE pad: open finding AdaptiveBound.base_bound /
+   absolute-1e-6-pad - lost in float32 above 32 and float64 above 1.7e10, unbalancing for
+   data finer than 1e-6).  [up_ref] (next float above x) is the ideal rule in exact arithmetic;
+   as a code change it is NOT sufficient on its own: the float rounding of np.percentile's
+   virtual index (pos = 3.9999999999999996 for rank 4) then puts the node on the wrong side,
+   which the absolute pad happens to absorb for data of size O(1).
+   The error of a sum of histograms (after the repair of Hist1D.__add__/__sub__: _sum_error)
+   ignores the infinite error of an empty component.   *)
 From Coq Require Import QArith Qabs Qround ZArith List Bool.
 Import ListNotations.
 Local Open Scope Q_scope.
@@ -65,10 +77,11 @@ Definition eps6 : Q := 1 # 1000000.
 (* the adaptive splitting itself, np.percentile being an oracle *)
 Section Adaptive.
 Variable pct : list Q -> nat -> nat -> Q.   (* pct data j n = np.percentile(data, j/n*100) *)
+Variable up : Q -> Q.                       (* upper-edge rule: the code uses up x = x + 1e-6 (up_old) *)
 
-(* num_rb = np.percentile(data, j / n * 100) + 1e-6   for j = 1 .. n-1 *)
+(* num_rb = _next_up(np.percentile(data, j / n * 100))   for j = 1 .. n-1 *)
 Definition cuts_of (col : list Q) (n : nat) : list Q :=
-  map (fun j => pct col j n + eps6) (seq 1 (n - 1)).
+  map (fun j => up (pct col j n)) (seq 1 (n - 1)).
 Definition column (idx : nat) (pts : list point) : list Q := map (fun p => nth idx p 0) pts.
 
 (* one (bound, data) pair of multi_split_bound's chain is split along dimension idx *)
@@ -111,16 +124,24 @@ Fixpoint loop_ok (nss : list (list nat)) (chain : list (box * list point)) : Pro
   end.
 End Adaptive.
 
-(* base_bound: (min - 1e-6, max + 1e-6) per dimension *)
+(* base_bound: (min - 1e-6, _next_up(max)) per dimension *)
 Fixpoint qmin_from (m : Q) (l : list Q) : Q :=
   match l with [] => m | x :: t => qmin_from (if Qle_bool x m then x else m) t end.
 Fixpoint qmax_from' (m : Q) (l : list Q) : Q :=
   match l with [] => m | x :: t => qmax_from' (if Qle_bool m x then x else m) t end.
 Definition qmin_l (l : list Q) : Q := match l with [] => 0 | x :: t => qmin_from x t end.
 Definition qmax_l (l : list Q) : Q := match l with [] => 0 | x :: t => qmax_from' x t end.
-Definition base_bound (ndim : nat) (pts : list point) : box :=
+Definition base_bound (up : Q -> Q) (ndim : nat) (pts : list point) : box :=
   map (fun d => (qmin_l (map (fun p => nth d p 0) pts) - eps6,
-                 qmax_l (map (fun p => nth d p 0) pts) + eps6)) (seq 0 ndim).
+                 up (qmax_l (map (fun p => nth d p 0) pts)))) (seq 0 ndim).
+
+(* instances of the oracle [up]:
+   up_old = the code as it is (absolute pad + 1e-6 on every upper edge);
+   up_ref = the ideal rule (next float): x + |x| 2^-53 + tiny lies strictly above x and
+            at or above the next float64 (tiny < smallest denormal 2^-1074 covers x = 0) *)
+Definition up_old (x : Q) : Q := x + eps6.
+Definition tiny : Q := Qmake 1 (2 ^ 1080)%positive.
+Definition up_ref (x : Q) : Q := x + Qabs x * (1 # 9007199254740992) + tiny.
 
 (* equal-population rule for distinct values: each child of a parent with m events split
    in n holds within one of m/n events:  |n*c - m| <= n *)
@@ -213,15 +234,24 @@ Fixpoint boxes_within (a b : list box) (atol : Q) : bool :=
 (* the implementation's bounds equal the model's split of the same data (percentile = reference
    instance), its masks equal the model's masks on its own bounds, every base event lies in
    exactly one bin *)
-Definition adaptive_case_ok (ndim : nat) (nss : list (list nat)) (pts : list point)
+Definition adaptive_case_ok_gen (up : Q -> Q) (ndim : nat) (nss : list (list nat)) (pts : list point)
   (impl_boxes : list box) (impl_masks : list (list bool)) (probe : list point)
-  (probe_masks : list (list bool)) : bool :=
-  boxes_within (map fst (loop_split qpercentile nss [(base_bound ndim pts, pts)])) impl_boxes
-               (1 # 1000000000000)
+  (probe_masks : list (list bool)) (atol : Q) : bool :=
+  boxes_within (map fst (loop_split qpercentile up nss [(base_bound up ndim pts, pts)])) impl_boxes atol
   && mask_eqb (bool_mask impl_boxes pts) impl_masks
   && all_once impl_boxes pts
   && mask_eqb (bool_mask impl_boxes probe) probe_masks
   && forallb (fun p => Nat.leb (count_in p impl_boxes) 1) probe.
+(* the code as it is: upper edges padded by + 1e-6, i.e. up = up_old (used by the harness) *)
+Definition adaptive_case_ok (ndim : nat) (nss : list (list nat)) (pts : list point)
+  (impl_boxes : list box) (impl_masks : list (list bool)) (probe : list point)
+  (probe_masks : list (list bool)) : bool :=
+  adaptive_case_ok_gen up_old ndim nss pts impl_boxes impl_masks probe probe_masks (1 # 1000000000000).
+(* candidate rule "next float above" (not the code; kept for a future repair): instance up_ref, tolerance from the caller *)
+Definition adaptive_case_ok2 (ndim : nat) (nss : list (list nat)) (pts : list point)
+  (impl_boxes : list box) (impl_masks : list (list bool)) (probe : list point)
+  (probe_masks : list (list bool)) (atol : Q) : bool :=
+  adaptive_case_ok_gen up_ref ndim nss pts impl_boxes impl_masks probe probe_masks atol.
 
 (* Hist1D.histogram: counts, squared errors on populated bins, inf-mask on empty bins *)
 Fixpoint err2_ok (model : list Q) (unw : list Q) (errs : list Q) (empty : list bool) (atol : Q) : bool :=
@@ -236,3 +266,41 @@ Definition hist_case_ok (es : list Q) (evs : list (Q * Q)) (counts errs : list Q
   (empty : list bool) (atol atol2 : Q) : bool :=
   qlist_within (hist es evs) counts atol
   && err2_ok (hist es (sq_w evs)) (hist es (unit_w evs)) errs empty atol2.
+
+(* ---- Hist1D.__add__ / __sub__ (after the repair: _sum_error) ----
+   an empty bin of Hist1D.histogram carries error = inf; flag = "error is inf".
+   errors are squared here. *)
+Definition hist_empty (es : list Q) (evs : list (Q * Q)) : list bool :=
+  map (fun c => Qeq_bool c 0) (hist es (unit_w evs)).
+(* e1 = where(isinf(e1), 0, e1) ... sqrt(e1^2 + e2^2) *)
+Definition add_err2 (e1 e2 : Q) (f1 f2 : bool) : Q := (if f1 then 0 else e1) + (if f2 then 0 else e2).
+Fixpoint hist_add_err2 (e1 e2 : list Q) (f1 f2 : list bool) : list Q :=
+  match e1, e2, f1, f2 with
+  | x :: e1', y :: e2', a :: f1', b :: f2' => add_err2 x y a b :: hist_add_err2 e1' e2' f1' f2'
+  | _, _, _, _ => []
+  end.
+Fixpoint bzip (op : bool -> bool -> bool) (a b : list bool) : list bool :=
+  match a, b with x :: a', y :: b' => op x y :: bzip op a' b' | _, _ => [] end.
+(* both = isinf(e1) & isinf(e2): the sum is empty only where both components are *)
+Definition hist_add_empty (f1 f2 : list bool) : list bool := bzip andb f1 f2.
+(* OLD rule: sqrt(e1^2 + e2^2) with inf propagating: empty where either component is *)
+Definition hist_add_empty_old (f1 f2 : list bool) : list bool := bzip orb f1 f2.
+
+Definition vsub (a b : list Q) : list Q := vadd a (map Qopp b).
+Fixpoint add_err2_ok (model errs : list Q) (fs : list bool) (atol2 : Q) : bool :=
+  match model, errs, fs with
+  | [], [], [] => true
+  | m :: model', e :: errs', f :: fs' =>
+      (if f then true else Qle_bool (Qabs (e * e - m)) atol2) && add_err2_ok model' errs' fs' atol2
+  | _, _, _ => false
+  end.
+(* c = counts, e = errors (not squared; 0 passed on a flagged bin), f = "error is inf";
+   sign = true for __add__, false for __sub__;  (cs, es, fs) = the implementation's result *)
+Definition hist_add_case_ok (c1 e1 : list Q) (f1 : list bool) (c2 e2 : list Q) (f2 : list bool)
+  (sign : bool) (cs es : list Q) (fs : list bool) (atol atol2 : Q) : bool :=
+  let n := length cs in
+  forallb (Nat.eqb n) [length c1; length e1; length f1; length c2; length e2; length f2;
+                       length es; length fs]
+  && qlist_within (if sign then vadd c1 c2 else vsub c1 c2) cs atol
+  && bool_list_eqb fs (hist_add_empty f1 f2)
+  && add_err2_ok (hist_add_err2 (map (fun e => e * e) e1) (map (fun e => e * e) e2) f1 f2) es fs atol2.
